@@ -427,6 +427,9 @@ func (cs *ContractSet) loadFile(path string) error {
 				return fmt.Errorf("%s:%d: %v", path, r.line, err)
 			}
 			pf.File, pf.Line = path, r.line
+			if prev, dup := cs.Pures[pkg+"."+pf.Name]; dup {
+				return fmt.Errorf("%s:%d: duplicate spec function %s (first defined at %s:%d)", path, r.line, pf.Name, prev.File, prev.Line)
+			}
 			cs.Pures[pkg+"."+pf.Name] = pf
 			cur = nil
 		case "axiom":
